@@ -335,6 +335,62 @@ fn ss_udp_cases(s: &mut Session, rng: &mut Rng, cipher: &'static str, want_user:
     s.mark_nontrivial();
 }
 
+/// requests sealed under command keys that belong to no configured user - in particular the keys a table holds when it
+/// was built carelessly (all zero, all ones) - and, for a Shadowsocks 2022 server with a single user, every way of
+/// holding only part of the credential
+fn unregistered_key_cases(s: &mut Session, cr: &mut Crafter, rng: &mut Rng) {
+    use base64ct::{Base64, Encoding};
+    s.begin_case("vmess:raw-command-keys");
+    let addr = random_addr(rng);
+    let vm_target = unhex(s.run(&format!("addr.enc vm {}", addr)).strip_prefix("ok ").unwrap_or("-")).unwrap_or_default();
+    for users in 1..=3usize {
+        let list: Vec<String> = (0..users).map(|i| format!("u{}:{}", i, random_uuid(rng))).collect();
+        for ck in [vec![0u8; 16], vec![0xffu8; 16], rng.bytes(16)] {
+            let sv = s.fresh("s");
+            s.run(&format!("vm.server {} users={}", sv, list.join(";")));
+            let (iv, key16) = (rng.bytes(16), rng.bytes(16));
+            let instr = spec(s, cr, &format!("craft.vm.instr iv={} key={} v=7 opt=17 padsec=3 cmd=1 pta={} padding=-", hex(&iv), hex(&key16), hex(&vm_target)));
+            let head = spec(s, cr, &format!("craft.vm.req cmdkey={} time={} rand={} nonce={} header={}", hex(&ck), crate::stream::now_secs(), hex(&rng.bytes(4)), hex(&rng.bytes(8)), instr));
+            let Some(w) = unhex(&head) else {
+                s.oracle_fail("craft", "spec builder unavailable");
+                return;
+            };
+            let d = feed_all(s, &sv, &[w], true);
+            must_refuse(s, "vmess", &format!("a request sealed under the command key {} that no configured user has ({} users)", hex(&ck[..2]), users), &d);
+        }
+    }
+    s.mark_nontrivial();
+    for (cipher, n) in [("2022-blake3-aes-128-gcm", 16usize), ("2022-blake3-aes-256-gcm", 32)] {
+        s.begin_case(&format!("ss:{}:single-user", cipher));
+        let k = |rng: &mut Rng| Base64::encode_string(&rng.bytes(n));
+        let (psk, user, other_psk, other_user) = (k(rng), k(rng), k(rng), k(rng));
+        for (what, client_pw, ok) in [
+            ("both keys", format!("{}:{}", psk, user), true),
+            ("the user's key but not the server's", format!("{}:{}", other_psk, user), false),
+            ("the server's key but not the user's", format!("{}:{}", psk, other_user), false),
+            ("the user's key alone, no identity header", user.clone(), false),
+            ("the server's key alone, no identity header", psk.clone(), false),
+        ] {
+            let (cc, sc, c, sv) = (s.fresh("cc"), s.fresh("sc"), s.fresh("c"), s.fresh("s"));
+            let addr = random_addr(rng);
+            s.run(&format!("ss.cctx {} cipher={} password={}", cc, cipher, client_pw));
+            s.run(&format!("ss.sctx {} cipher={} password={} users=solo:{}", sc, cipher, psk, user));
+            s.run(&format!("ss.new {} {} {}", c, cc, addr));
+            s.run(&format!("ss.new {} {} -", sv, sc));
+            let Some(w) = encode_all(s, &c, &[b"payload".to_vec()]) else { return };
+            let d = feed_all(s, &sv, &[w], true);
+            if ok {
+                if d.connect.as_deref() != Some(addr.as_str()) {
+                    s.oracle_fail(&format!("ss:{}:control", cipher), "the single configured user was not accepted");
+                }
+            } else {
+                must_refuse(s, &format!("ss:{}", cipher), &format!("a single-user server, a client that holds {}", what), &d);
+            }
+        }
+        s.mark_nontrivial();
+    }
+}
+
 pub fn generate(s: &mut Session, tier: &str, rng: &mut Rng) {
     let Some(mut cr) = Crafter::new() else {
         s.begin_case("no-driver");
@@ -356,6 +412,7 @@ pub fn generate(s: &mut Session, tier: &str, rng: &mut Rng) {
             }
         }
         vm_tj_cases(s, rng);
+        unregistered_key_cases(s, &mut cr, rng);
     }
     // the real server: two users, one session id — each reply is sealed for the user whose datagram it answers
     for cfg in crate::e2e_gen::protocol_ciphers(rng) {
